@@ -172,3 +172,24 @@ Definition show_table (kind : string) : option string :=
   else if String.eqb kind "ipproto" then Some (join "," (map show_row (sort_rows ipproto_rows)))
   else if String.eqb kind "udpports" then Some (join "," (map show_port_row udp_port_rows))
   else None.
+
+(* ---------------------------------------------------------------- *)
+(* The exported surface of packet.Frame (dispatch kind "m"): Go signature and what covers it in the model.
+   The harness obtains the same line by reflection; a method or exported field added to Frame makes them differ. *)
+Definition frame_methods : list (string * string) :=
+  [ ("Ether()packet.Ether", "frame_ether")
+  ; ("HasIP()bool", "frame_has_ip (reads the two offsets)")
+  ; ("IP4()packet.IP4", "frame_ip4")
+  ; ("IP6()packet.IP6", "frame_ip6")
+  ; ("Log(*fastlog.Line)*fastlog.Line", "frame_log (fields + len(Payload()))")
+  ; ("Payload()[]uint8", "frame_payload")
+  ; ("TCP()packet.TCP", "frame_tcp")
+  ; ("UDP()packet.UDP", "frame_udp") ].
+Definition frame_fields : list (string * string) :=
+  [ ("DstAddr:packet.Addr", "f_dst (MAC = p[0:6], IP, Port)")
+  ; ("Host:*packet.Host", "f_host (the key; the record belongs to the host table)")
+  ; ("PayloadID:packet.PayloadID", "f_id")
+  ; ("Session:*packet.Session", "back pointer, not modelled")
+  ; ("SrcAddr:packet.Addr", "f_src (MAC = p[6:12], IP, Port)") ].
+Definition frame_api : string :=
+  "methods=" ++ join "," (map fst frame_methods) ++ " fields=" ++ join "," (map fst frame_fields).
